@@ -279,9 +279,12 @@ pub fn scenario_open_directed(report: &mut Report, sig: &'static str) -> (Scenar
     }
     t2.nodes.remove("/f04");
     let p = BackupParamsLite { hunk: 4, block: 1 << 20, cap: 0 };
-    let steps = vec![Step::SetTree(t), Step::Backup(p.clone()), Step::SetTree(t2), Step::BackupCrash(p, 11, 20)];
+    let steps = vec![Step::SetTree(t), Step::Backup(p.clone()), Step::SetTree(t2), Step::BackupCrash(p, 17, 20)];
     let case_id = json!({"directed": "interrupted version over a four-hunk predecessor", "history": history_json(&steps)});
-    (build_scenario(&steps, report, &case_id, sig), case_id)
+    let sc = build_scenario(&steps, report, &case_id, sig);
+    let own_hunks = sc.pre_state.iter().filter(|l| l.contains(" b0001/i/") && l.contains(" hunk:")).count();
+    report.hit(&format!("directed:open-version-own-hunks={own_hunks}"));
+    (sc, case_id)
 }
 
 /// A version whose tail file exists but is zero-length (the backup was killed between the two micro-steps of
